@@ -682,6 +682,12 @@ struct Dumper {
     if (VD->isConstexpr()) OS << ",\"constexpr\":1";
     if (T->isReferenceType()) OS << ",\"ref\":1";
     if (VD->isThisDeclarationADefinition() == VarDecl::Definition) OS << ",\"def\":1";
+    // constant tables / scalars at namespace or class scope: keep the declaration so that reads can be evaluated
+    if (T.isConstQualified() && !T->isReferenceType() && !VD->isStaticLocal() && VD->hasInit() &&
+        VD->getTLSKind() == VarDecl::TLS_None && !VD->getInit()->isValueDependent()) {
+      OS << ",\"decl\":";
+      dumpVarDecl(VD);
+    }
     // element record (strip arrays)
     QualType ET = T;
     while (const ArrayType *AT = Ctx.getAsArrayType(ET)) ET = AT->getElementType();
